@@ -326,6 +326,89 @@ def _big_cases(args):
     return out
 
 
+def _qc_cases(args):
+    """ab-initio-like Hamiltonians (qc_model, Jordan-Wigner form, two-component quantum numbers) with and without
+    on-the-fly site swapping: every window energy against exact diagonalisation in the (N_alpha, N_beta) sector."""
+    bootstrap()
+    from renormalizer.model import h_qc, Model
+    from renormalizer.mps import Mpo, Mps, gs
+    from renormalizer.utils import OptimizeConfig, CompressConfig, CompressCriteria
+    from renormalizer.utils.configs import OFS
+    from .. import states as st
+    from .c17 import random_integrals, fermi_ham
+    seed, k = args
+    out = {"cases": [], "viol": [], "traces": 0, "stats": {"micro": 0, "min_gap": 1.0}}
+    rng = rng_for(seed, "c08qc", k)
+    nsp = 2 + (k % 2)
+    h, eri = random_integrals(nsp, rng, "random")
+    if k % 3 == 2:
+        eri = eri * 0.1                                         # weakly correlated: near mean field
+    sh, aseri = h_qc.int_to_h(h, eri)
+    basis, terms = h_qc.qc_model(sh, aseri)
+    H = np.asarray(fermi_ham(sh, aseri), dtype=float)      # second-quantised reference, independent of the library's operator
+    if np.linalg.norm(H - H.T) > 1e-10:
+        raise MachineryError("the generated integrals do not give a Hermitian Hamiltonian")
+    for method, nroots, ofs, M, sector in [("2site", 1, None, 16, (1, 1)), ("2site", 1, "ofs_d", 16, (1, 1)), ("2site", 1, "ofs_s", 16, (1, 1)),
+                                           ("1site", 1, None, 16, (1, 1)), ("2site", 2, None, 16, (1, 1)), ("2site", 1, "ofs_ds", 3, (1, 1)),
+                                           ("2site", 1, None, 3, (1, 0)), ("1site", 2, None, 16, (1, 0) if nsp > 2 else (1, 1))]:
+        detail = {"model": f"qc_model nspatial={nsp}", "method": method, "nroots": nroots, "ofs": ofs, "M": M, "sector": list(sector), "k": k}
+        out["cases"].append(json.dumps(detail))
+        try:
+            model = Model(list(basis), terms)
+            mpo = Mpo(model)
+            q = np.array(sector)
+            mask = st.sector_projector(basis, q)
+            if mask.sum() < 4 * nroots:
+                out["cases"].pop()
+                continue
+            exact = np.linalg.eigvalsh(H[np.ix_(mask, mask)])
+            scale = max(1.0, float(np.abs(exact).max()))
+            reseed_global(seed, "c08qc-run", k, method, nroots, str(ofs), M)
+            mps = Mps.random(model, q, M, percent=1.0)
+            cc = lambda pct: [CompressConfig(CompressCriteria.fixed, max_bonddim=M, ofs=None if ofs is None else getattr(OFS, ofs)), pct]
+            mps.optimize_config = OptimizeConfig(procedure=[cc(0.3), cc(0.1), cc(0), cc(0), cc(0)])
+            mps.optimize_config.method, mps.optimize_config.nroots = method, nroots
+            with ChainRecorder(mps) as rec:
+                energies, res = gs.optimize_mps(mps, mpo)
+            for isw, sweep in enumerate(rec.micro):
+                for e, cidx in sweep:
+                    es = np.atleast_1d(np.asarray(e, dtype=float))
+                    out["stats"]["micro"] += len(es)
+                    for kk, ek in enumerate(es):
+                        gap = (ek - exact[kk]) / scale
+                        out["stats"]["min_gap"] = min(out["stats"]["min_gap"], float(gap))
+                        if gap < -TOL:
+                            out["viol"].append((f"C08:bound:qc:{'ofs' if ofs else 'plain'}", f"sweep {isw} window {cidx} root {kk}: energy {ek} below the exact value {exact[kk]}", detail))
+            states = [res] if nroots == 1 else list(res)
+            dofs0 = [b.dofs for b in basis]
+            for kk, s_ in enumerate(states):
+                v = st.dense(s_)
+                order = [b.dofs for b in s_.model.basis]
+                v = np.asarray(v).reshape([b.nbas for b in s_.model.basis]).transpose([order.index(d) for d in dofs0]).reshape(-1)
+                nv = float(np.linalg.norm(v))
+                if abs(nv - 1) > 1e-8:
+                    out["viol"].append(("C08:states:qc-norm", f"returned state {kk} has norm {nv}", detail))
+                # with swapped sites the Jordan-Wigner strings of the reference no longer match the site order: energies only through the library
+                if ofs is None:
+                    leak = float(np.linalg.norm(v[~mask])) / (nv + 1e-300)
+                    if leak > 1e-8:
+                        out["viol"].append(("C06:gs-qc-sector-leak", f"{leak:.2e} outside the sector", detail))
+                    rq = float(np.real(v[mask].conj() @ H[np.ix_(mask, mask)] @ v[mask])) / nv ** 2
+                    if rq < exact[0] - TOL * scale:
+                        out["viol"].append(("C08:states:qc-below-ground", f"returned state {kk}: energy {rq} < exact {exact[0]}", detail))
+                    if M >= 16 and abs(sorted([rq])[0] - exact[kk]) > 1e-6 * scale and nroots == 1:
+                        out["viol"].append(("C08:exact:qc-state", f"full bond: returned state energy {rq}, exact {exact[kk]}", detail))
+            if M >= 16:
+                last = np.atleast_1d(np.asarray(energies[-1], dtype=float))
+                if np.abs(last - exact[:nroots]).max() > 1e-6 * scale:
+                    out["viol"].append((f"C08:exact:qc-reported:{'ofs' if ofs else 'plain'}", f"full bond: reported {last}, exact {exact[:nroots]}", detail))
+        except Exception as e:
+            import traceback
+            tb = traceback.format_exc(limit=4).splitlines()
+            out["viol"].append((f"C08:raises:qc:{type(e).__name__}", f"{type(e).__name__}: {e} | {' | '.join(x.strip() for x in tb[-4:-1])}", detail))
+    return out
+
+
 class TreeRecorder:
     def __init__(self, nodes):
         self.events, self.micro, self.nodes = [], [], nodes
@@ -488,6 +571,7 @@ def run(ctx):
     res = pmap(_chain_cases, [(jobs[i::n], ctx.seed, schedules) for i in range(n) if jobs[i::n]], chunksize=1)
     big = [(ctx.seed, m, k, M) for m in ("1site", "2site") for k in (1, 3) for M in ((8, 18) if tier == "quick" else (6, 10, 14, 18))]
     res += pmap(_big_cases, big, chunksize=1)
+    res += pmap(_qc_cases, [(ctx.seed, k) for k in range(6 if tier == "quick" else 24)], chunksize=1)
     # ---------------------------------------------------------------- tree runs
     tjobs = []
     tj = 0
@@ -533,6 +617,7 @@ def run(ctx):
     ctx.sample({"chain_schedule_from_TLC": {"key": list(schedules)[-1], "events": schedules[list(schedules)[-1]][:9]}})
     ctx.cov["rule"] = ("(system family/size/sector, method, eigensolver, roots 1..4, procedure (7: full/limited/threshold bonds, perturbation), operator provenance "
                        "(model, scaled, sum, stacked), initial-state provenance (fresh, canonicalised, sum, operator x state, moved centre), omega) for chains; "
+                       "qc_model Hamiltonians (2-3 spatial orbitals, (N_alpha, N_beta) sectors) x method x roots x on-the-fly swapping (off, ofs_d, ofs_s, ofs_ds); "
                        "(tree from TLC x grouping, family, eigensolver, procedure) for trees; distinct = distinct tuple; every window energy of every sweep is compared")
     ctx.assumptions += ["exact diagonalisation of the dense Hamiltonian restricted to the sector by numpy.linalg.eigvalsh is the oracle; bound tolerance 1e-8 relative",
                         "primme is not installed offline: direct, davidson (chain and tree) and arpack (tree) are the eigensolvers covered"]
